@@ -22,12 +22,16 @@ UpTimes == {"atSigPub", "later", "between", "earlier"}      \* user publication 
 (* alteredRightLink: one right-link hash differs; extraRightLink / missingRightLink: all of the signature's right links are there unchanged, followed by *)
 (* one more / the last one is missing (the count differs, and so does the root)                                                                  *)
 ExtBehaviours == {"honest", "otherRoot", "otherInput", "otherAggrTime", "otherPubTime", "alteredRightLink", "extraRightLink", "missingRightLink",
-                  "errorStatus", "badHmac", "noReply", "otherId"}
+                  "errorStatus", "badHmac", "noReply", "otherId", "deprecatedAlg"}
+(* deprecatedAlg: the calendar database itself (so also every published root hash) was built with a left sibling whose hash algorithm is   *)
+(* deprecated at the publication time: the reply is honest in every respect, only its chain cannot carry trust any more                  *)
+(* sigAlg: the same for the signature's own calendar chain (SHA-1 after 2016-07-01: deprecated, not obsolete -- internally still consistent) *)
 CertStates == {"valid", "startsAtAggr", "endsAtAggr", "notYetValid", "expired", "unknownId", "badSignature"}
 PfStates == [atSig : {"match", "otherHash", "absent"}, later : {"true", "otherHash", "none"}]
-Envs == [internal : {"ok", "broken"}, cal : BOOLEAN, rec : Recs, up : {"none", "given"}, upTime : UpTimes, upHash : {"true", "other"},
+Envs == [internal : {"ok", "broken"}, cal : BOOLEAN, sigAlg : {"current", "deprecated"}, rec : Recs, up : {"none", "given"}, upTime : UpTimes, upHash : {"true", "other"},
          pf : {"none", "given"}, pfsrc : {"user", "downloadTrusted", "downloadUntrusted"}, pfc : PfStates, extAllowed : BOOLEAN, ext : ExtBehaviours, cert : CertStates]
 WellFormed(e) == /\ (e.rec # "none" => e.cal)
+                 /\ (~e.cal => e.sigAlg = "current")
                  /\ (e.up = "none" => e.upTime = "later" /\ e.upHash = "true")            \* canonical don't-cares
                  /\ (e.pf = "none" => e.pfc = [atSig |-> "absent", later |-> "none"] /\ e.pfsrc = "user")
                  /\ (e.rec # "auth" => e.cert = "valid")
@@ -43,6 +47,11 @@ InputOk(e) == e.ext # "otherInput"
 AggrOk(e) == e.ext # "otherAggrTime"
 PubTimeOk(e) == e.ext # "otherPubTime"
 RLinksOk(e) == e.ext \notin {"alteredRightLink", "extraRightLink", "missingRightLink"}
+(* hash-algorithm lifetime of the calendar chain trust is taken from: the signature's own chain, or the one the extender returned.  The   *)
+(* calendar database has ONE chain per (aggregation time, publication time): asked for the signature's own publication time it returns   *)
+(* the signature's own chain (a reply for another publication time -- otherPubTime -- carries that other time's chain)                   *)
+SigAlgOk(e) == e.sigAlg = "current"
+ExtAlgOk(e, atSigPub) == IF e.cal /\ atSigPub /\ PubTimeOk(e) THEN SigAlgOk(e) ELSE e.ext # "deprecatedAlg"
 (* the publication the publications-file policy would extend to: the earliest one not before the aggregation time *)
 NearestHash(e) == IF e.pfc.atSig # "absent" THEN (IF e.pfc.atSig = "match" THEN "true" ELSE "other")
                   ELSE IF e.pfc.later # "none" THEN (IF e.pfc.later = "true" THEN "true" ELSE "other") ELSE "none"
@@ -67,7 +76,9 @@ Leaf(n, e) ==
     [] n = "SignaturePublicationRecordMissing" -> If(e.rec # "pub", OKr, NA0)
     [] n = "ExtRootHash" -> If(RootTrue(e), OKr, FAIL("CAL-01"))
     [] n = "CalendarHashChainPresence" -> If(e.cal, OKr, NA2)
-    [] n = "AlgorithmNotDeprecated" -> OKr
+    [] n = "SigAlgorithmNotDeprecated" -> If(SigAlgOk(e), OKr, NA2)
+    [] n = "PfExtAlgorithmNotDeprecated" -> If(ExtAlgOk(e, e.pfc.atSig # "absent"), OKr, NA2)       \* extension target: the earliest publication not before the aggregation time
+    [] n = "UpExtAlgorithmNotDeprecated" -> If(ExtAlgOk(e, e.upTime = "atSigPub"), OKr, NA2)
     [] n = "CalendarAuthRecPresence" -> If(e.rec = "auth", OKr, NA2)
     [] n = "CertificateExistence" -> If(e.rec # "auth", NA2, If(~PfAvail(e), NAerr, If(e.cert = "unknownId", NA2, OKr)))
     [] n = "CertificateValidity" -> If(e.cert \in {"notYetValid", "expired"}, FAIL("KEY-03"), OKr)
@@ -100,21 +111,21 @@ ExtendToCalChainRule == <<B("CalendarHashChainExistence"), B("ExtendToSamePubTim
 CalChainRuleCal == <<OR(ExtendToHeadRule), OR(ExtendToCalChainRule)>>
 CalendarBased == <<AND(Internal), AND(CalChainRuleCal)>>
 
-KeyBased == <<AND(Internal), B("CalendarHashChainPresence"), B("AlgorithmNotDeprecated"), B("CalendarAuthRecPresence"), B("CertificateExistence"),
+KeyBased == <<AND(Internal), B("CalendarHashChainPresence"), B("SigAlgorithmNotDeprecated"), B("CalendarAuthRecPresence"), B("CertificateExistence"),
               B("CertificateValidity"), B("CalAuthRecSignature")>>
 
-ExtendToPublication == <<B("PubFileContainsSuitablePublication"), B("ExtendingPermitted"), B("PubFileExtendToPublication"), B("AlgorithmNotDeprecated"),
+ExtendToPublication == <<B("PubFileContainsSuitablePublication"), B("ExtendingPermitted"), B("PubFileExtendToPublication"), B("PfExtAlgorithmNotDeprecated"),
                          B("PubFileHashMatchesExtender"), B("PubFileTimeMatchesExtender"), B("PubFileExtInputHash")>>
-SuitablePubExistPf == <<B("PubFileContainsSignaturePublication"), B("PubFileSignaturePublicationVerification"), B("AlgorithmNotDeprecated")>>
+SuitablePubExistPf == <<B("PubFileContainsSignaturePublication"), B("PubFileSignaturePublicationVerification"), B("SigAlgorithmNotDeprecated")>>
 SuitablePubMissingPf == <<B("PubFileDoesNotContainSignaturePublication"), AND(ExtendToPublication)>>
 SigPubRecExistPf == <<B("SignaturePublicationRecordExistence"), OR(SuitablePubExistPf), OR(SuitablePubMissingPf)>>
 SigPubRecMissingPf == <<B("SignaturePublicationRecordMissing"), AND(ExtendToPublication)>>
 PubRecRulePf == <<OR(SigPubRecExistPf), OR(SigPubRecMissingPf)>>
 PubFileBased == <<AND(Internal), AND(PubRecRulePf)>>
 
-ExtendToUserPub == <<B("UserPubCreationTime"), B("ExtendingPermitted"), B("UserPubExtendToPublication"), B("AlgorithmNotDeprecated"),
+ExtendToUserPub == <<B("UserPubCreationTime"), B("ExtendingPermitted"), B("UserPubExtendToPublication"), B("UpExtAlgorithmNotDeprecated"),
                      B("UserPubHashMatchesExtender"), B("UserPubTimeMatchesExtender"), B("UserPubExtInputHash")>>
-SuitablePubExist == <<B("UserPubTimeVerification"), B("UserPubHashVerification"), B("AlgorithmNotDeprecated")>>
+SuitablePubExist == <<B("UserPubTimeVerification"), B("UserPubHashVerification"), B("SigAlgorithmNotDeprecated")>>
 SuitablePubMissing == <<B("UserPubTimeDoesNotSuit"), AND(ExtendToUserPub)>>
 SigPubRecExist == <<B("SignaturePublicationRecordExistence"), OR(SuitablePubExist), OR(SuitablePubMissing)>>
 SigPubRecMissing == <<B("SignaturePublicationRecordMissing"), AND(ExtendToUserPub)>>
@@ -174,6 +185,14 @@ OkOnlyIfBound(p, e) == Verdict(p, e).res = "OK" => (e.internal = "ok" /\ Bound(p
 FailOnlyOnContradiction(p, e) == Verdict(p, e).res = "FAIL" => Contradiction(p, e)
 BrokenNeverOk(p, e) == e.internal = "broken" => Verdict(p, e).res = "FAIL"
 (* a missing anchor, a forbidden / unavailable / failed extension: inconclusive, never OK and never FAIL *)
+(* hash-algorithm lifetime: a calendar chain with a link algorithm deprecated at its publication time never carries an OK -- neither the  *)
+(* signature's own chain (key-based; publication matched directly) nor an extended one; the calendar-based policy has no such condition  *)
+AlgsCurrent(e) == SigAlgOk(e) /\ e.ext # "deprecatedAlg"
+DeprecatedNeverOk(p, e) ==
+    /\ (p = "KEY" /\ ~SigAlgOk(e)) => Verdict(p, e).res # "OK"
+    /\ (p \in {"USERPUB", "PUBFILE", "KEY"} /\ ~SigAlgOk(e) /\ e.ext = "deprecatedAlg") => Verdict(p, e).res # "OK"
+    /\ (p \in {"USERPUB", "PUBFILE"} /\ e.ext = "deprecatedAlg" /\ ~e.cal) => Verdict(p, e).res # "OK"
+    /\ (p = "GENERAL" /\ ~SigAlgOk(e) /\ e.ext = "deprecatedAlg") => Verdict(p, e).res # "OK"
 NoAnchorIsNA(p, e) == /\ (p = "USERPUB" /\ e.up = "none" /\ e.internal = "ok") => Verdict(p, e).res = "NA"
                       /\ (p \in {"PUBFILE", "KEY"} /\ ~PfAvail(e) /\ e.internal = "ok") => Verdict(p, e).res = "NA"
                       /\ (p = "CAL" /\ ~FetchOk(e) /\ e.internal = "ok") => Verdict(p, e).res = "NA"
